@@ -178,8 +178,10 @@ func gpermGen(rng *hx.Rng, n int, tier string, w *hx.Writer) {
 			sc, tag = genCycle(r, 1+r.Intn(4), r.Intn(3)), "cycle"
 		case c < 7:
 			sc, tag = genSelf(r), "self"
-		case c < 9:
+		case c < 8:
 			sc, tag = genMatch(r), "match"
+		case c < 9:
+			sc, tag = genSliceCycle(r), "slicecycle"
 		default:
 			sc, tag = genDiamond(r), "diamond"
 		}
